@@ -6,7 +6,7 @@ of the function bodies (local names eliminated), under inverse=False and inverse
 
 import ast
 
-from ..astutil import attr_chain, canon_atom, cond_atoms, const_number, negate_atom
+from ..astutil import attr_chain, canon_atom, cond_atoms, const_number, negate_atom, product_factors, signed_terms
 from ..model import AnalysisIncomplete, FuncInfo, norm_text
 from ..report import Finding, RuleResult
 from ..sign import sign_of, POS
@@ -1049,9 +1049,102 @@ def dom_guard_rule(ctx):
     return [res, r2]
 
 
+# ---------------------------------------------------------------------------------------
+# SPL-ROOT (C09): the in-bin test of a computed root is tolerant at both knots
+# ---------------------------------------------------------------------------------------
+
+
+def root_rule(ctx):
+    """The inverse cubic solves a cubic per input and keeps the root that falls into the input's bin.  An
+    input lying exactly on a knot has its pre-image *at* a knot; the closed-form root comes out as that knot
+    plus or minus a few ulp.  So every comparison that admits a trigonometric root into the bin must leave
+    slack on the admitting side: written as E > 0, E contains a positive tolerance term (`root > left - eps`,
+    `root < right + eps`).  Without it no root passes, the fall-back picks a root of another bin, and the
+    inverse misses the end-points, jumps at interior knots and leaves the box."""
+    p = ctx.p
+    res = RuleResult("SPL-ROOT", "every comparison that admits a closed-form (trigonometric) root of the inverse cubic into its bin carries a positive tolerance on the admitting side")
+    fi = next((inner for inner, outer in spline_funcs(p) if inner.name == "cubic_spline"), None)
+    if fi is None:
+        raise AnalysisIncomplete("cubic_spline not found")
+    mod = p.modules.get(fi.module) if isinstance(fi.module, str) else fi.module
+    consts = {}
+    for st in getattr(getattr(mod, "tree", None), "body", []):
+        if isinstance(st, ast.Assign) and len(st.targets) == 1 and isinstance(st.targets[0], ast.Name) and const_number(st.value) is not None:
+            consts[st.targets[0].id] = const_number(st.value)
+    defaults = {}
+    for a, d in fi.params():
+        if d is None:
+            continue
+        v = const_number(d)
+        if v is None and isinstance(d, ast.Name):
+            v = consts.get(d.id)
+        defaults[a] = v
+    n = 0
+    seen = set()
+
+    def is_trig(e):
+        return any(isinstance(c, ast.Call) and func_last(c) in ("cos", "sin") for c in uwalk(e))
+
+    def positive_tol(t):
+        ps, fac = product_factors(t)
+        pos = ps > 0
+        ok = bool(fac)
+        for f in fac:
+            v = const_number(f)
+            if v is not None:
+                if v < 0:
+                    pos = not pos
+                elif v == 0:
+                    ok = False
+            elif isinstance(f, ast.Name) and defaults.get(f.id) is not None and defaults[f.id] > 0:
+                pass
+            else:
+                ok = False
+        return ok, pos
+
+    for path in _ret_paths(fi, True):
+        exprs = [path.ret] + [part for eff in path.effects for part in eff[2:] if isinstance(part, ast.AST)]
+        for ex in exprs:
+            for c in uwalk(ex):
+                if not (isinstance(c, ast.Compare) and len(c.ops) == 1 and isinstance(c.ops[0], (ast.Lt, ast.LtE, ast.Gt, ast.GtE))):
+                    continue
+                a, b = c.left, c.comparators[0]
+                if not (is_trig(a) or is_trig(b)) or (is_trig(a) and is_trig(b)):
+                    continue
+                k = shash(c)
+                if k in seen:
+                    continue
+                seen.add(k)
+                n += 1
+                # normalise to E > 0
+                if isinstance(c.ops[0], (ast.Lt, ast.LtE)):
+                    a, b = b, a
+                terms = signed_terms(a) + [(-sg, t) for sg, t in signed_terms(b)]
+                slack = []
+                for sg, t in terms:
+                    ok, pos = positive_tol(t)
+                    if ok:
+                        slack.append(sg if pos else -sg)
+                side = "lower" if is_trig(a) else "upper"
+                opname = {ast.Lt: "<", ast.LtE: "<=", ast.Gt: ">", ast.GtE: ">="}[type(c.ops[0])]
+
+                def _side(e):
+                    tol = [("+" if sg > 0 else "-") + norm_text(t) for sg, t in signed_terms(e) if positive_tol(t)[0]]
+                    return ("root" if is_trig(e) else "knot") + ("".join(" " + t[0] + " " + t[1:] for t in tol))
+
+                shown = "%s %s %s" % (_side(c.left), opname, _side(c.comparators[0]))
+                if any(x > 0 for x in slack) and not any(x < 0 for x in slack):
+                    res.ok("%s bound of a root: tolerance on the admitting side (`%s`)" % (side, shown))
+                else:
+                    res.fail(Finding("SPL-ROOT", fi.module, fi.qualname, c, "the %s bound `%s` admits a computed root without a positive tolerance: a root that should equal the knot but is off by rounding is rejected, another bin's root is returned (end-points missed, jumps at knots, values outside the box)" % (side, shown), construct="%s bound of the in-bin test of a root" % side))
+    if n < 2:
+        raise AnalysisIncomplete("SPL-ROOT: %d root-versus-knot comparisons found in the inverse cubic (< 2)" % n)
+    return res
+
+
 register(
     "C09",
-    [c09_pin, floor_rule, tail_rule, clamp_rule, c17_eps],
+    [c09_pin, floor_rule, tail_rule, clamp_rule, c17_eps, root_rule],
     "Family template over linear / quadratic / cubic / rational-quadratic splines and their unconstrained wrappers, decided on "
     "the symbolic expansion of each function under inverse=False and inverse=True. SPL-PIN: every searched knot vector has its "
     "first and last element stored exactly (0/1 for unit knots; the box arguments for scaled knots) through F.pad / explicit "
@@ -1062,7 +1155,8 @@ register(
     "spline on the square box in the same symbol, hyper-parameters and the boundary-derivative constant forwarded. SPL-CLAMP: "
     "clamp to [0,1] before de-normalisation (linear, quadratic) and the floor-index repair. EPS-UNITS (shared with C17): the "
     "right-edge epsilon of the bin search has the units of the knots it is added to, so the upper end-point falls into the last "
-    "bin for every box. Continuity and strict monotonicity "
+    "bin for every box. SPL-ROOT: every comparison that admits a closed-form root of the inverse cubic into its bin has a positive "
+    "tolerance on the admitting side (a pre-image lying on a knot is computed as the knot +- rounding). Continuity and strict monotonicity "
     "across bins for all parameter values (inequalities between computed numbers) are out of reach and NOT claimed.",
     [A_CFG, T_OPS],
 )
